@@ -15,20 +15,24 @@ import (
 
 // Options selects the shape and the hostility of one simulated execution.
 type Options struct {
-	Seed         int64
-	HealSeed     int64 // re-seeds the healing phase only
-	Steps        int
-	Voters       int
-	NonVotings   int
-	Witnesses    int
-	PreVote      bool
-	CheckQuorum  bool
-	Ordered      bool
-	AllowDup     bool // duplicate messages (never for C01 histories)
-	Overhead     uint64
-	ElectionRTT  uint64
-	HeartbeatRTT uint64
-	Keys         int
+	Seed       int64
+	HealSeed   int64 // re-seeds the healing phase only
+	Steps      int
+	Voters     int
+	NonVotings int
+	// PreferNonVoting: membership change requests add the non-voting members before anything else
+	PreferNonVoting bool
+	// LongPartitions: partition phases last several election timeouts
+	LongPartitions bool
+	Witnesses      int
+	PreVote        bool
+	CheckQuorum    bool
+	Ordered        bool
+	AllowDup       bool // duplicate messages (never for C01 histories)
+	Overhead       uint64
+	ElectionRTT    uint64
+	HeartbeatRTT   uint64
+	Keys           int
 	// weights (relative) of the scheduler's actions
 	WCrash, WSnapshot, WConfigChange, WTransfer, WRead, WPropose, WPartition int
 	HealRounds                                                               int // election timeouts of fair schedule after the fault prefix (C17)
@@ -273,6 +277,10 @@ func (s *Sim) nextPhase() {
 		s.phase = phMixed
 	}
 	s.phaseEnd = s.stepNo + 120 + s.rng.Intn(380)
+	if s.opt.LongPartitions && s.phase == phPartition {
+		// long enough for the other side to elect a leader and complete writes while the cut lasts
+		s.phaseEnd = s.stepNo + 500 + s.rng.Intn(1000)
+	}
 	if prev == phPartition || prev == phMixed || s.phase == phCalm {
 		if len(s.blocked) > 0 {
 			s.blocked = map[[2]uint64]bool{}
@@ -313,6 +321,9 @@ func (s *Sim) Step() {
 		wCrash = 2 * o.WCrash
 	case phPartition:
 		wPart = 0
+		if o.LongPartitions {
+			wTick = 25
+		}
 	case phMixed:
 		wDrop, wDup, wCrash, wPart = 3, 2, o.WCrash, o.WPartition
 	}
@@ -461,6 +472,19 @@ func (s *Sim) actConfigChange(alive []uint64) {
 	var cc pb.ConfigChange
 	kind := s.rng.Intn(10)
 	members := s.mon.latestMembership()
+	retryNV := uint64(0)
+	if s.opt.PreferNonVoting && len(members.NonVotings) == 0 {
+		// mixed-role shapes first; a request that was dropped is repeated for the same replica
+		kind = 2
+		for _, id := range s.order {
+			x := s.replicas[id]
+			_, removed := members.Removed[id]
+			_, voter := members.Addresses[id]
+			if x.cfg.IsNonVoting && !removed && !voter {
+				retryNV = id
+			}
+		}
+	}
 	ccid := uint64(0)
 	if s.opt.Ordered {
 		ccid = members.ConfigChangeId
@@ -469,6 +493,8 @@ func (s *Sim) actConfigChange(alive []uint64) {
 		}
 	}
 	switch {
+	case retryNV != 0:
+		cc = pb.ConfigChange{Type: pb.AddNonVoting, ReplicaID: retryNV, Address: fmt.Sprintf("a%d", retryNV)}
 	case kind < 2 && s.countKind(false, false) < 5: // add voter
 		id := s.nextID
 		s.nextID++
@@ -575,7 +601,32 @@ func (s *Sim) restart(r *replica) {
 
 func (s *Sim) actPartition() {
 	ids := append([]uint64(nil), s.order...)
-	switch s.rng.Intn(3) {
+	pick := s.rng.Intn(4)
+	if pick == 3 {
+		// the present leader keeps only the members that do not count for quorums (non-voting
+		// replicas) on its side: everything it hears may look like support, none of it is
+		l := s.mon.someLeader()
+		mem := s.mon.latestMembership()
+		if l == 0 || len(mem.NonVotings) == 0 {
+			pick = s.rng.Intn(3)
+		} else {
+			side := map[uint64]bool{l: true}
+			for id := range mem.NonVotings {
+				side[id] = true
+			}
+			for _, a := range ids {
+				for _, b := range ids {
+					if side[a] != side[b] {
+						s.blocked[[2]uint64{a, b}] = true
+					}
+				}
+			}
+			s.mon.count("partitions_leader_with_non_voting_members", 1)
+			s.tr("partition leader %d + non-voting members | voters", l)
+			return
+		}
+	}
+	switch pick {
 	case 0: // symmetric split
 		s.rng.Shuffle(len(ids), func(i, j int) { ids[i], ids[j] = ids[j], ids[i] })
 		k := 1 + s.rng.Intn(len(ids))
